@@ -20,6 +20,7 @@ import (
 	"sort"
 	"strings"
 	"sync"
+	"syscall"
 	"time"
 
 	"verif/internal/ev"
@@ -433,9 +434,12 @@ func main() {
 		"seek-back-mid-file": {rd(2), sk(1), rd(2), sk(0), rd(1), cl},
 		// a failing call while goroutines are at work, then Close: both sides report the
 		// error (the comparison ends there) but Close must still leave no goroutine behind
-		"read-badseek-close":      {rd(1), sk(-1), cl},
-		"read-badseekrange-close": {rd(1), {Kind: "seekrange", Off: 2, Hi: 1}, cl},
-		"read-badseek-closenw":    {rd(1), sk(-1), {Kind: "closenw"}},
+		// the position stays, only the limit changes (narrower / wider than what was requested before)
+		"seekrange-same-pos-narrow": {rd(1), {Kind: "seekrange", Off: 1, Hi: 2}, rd(5), rd(1), cl},
+		"seekrange-same-pos-widen":  {{Kind: "seekrange", Off: 0, Hi: 2}, rd(1), {Kind: "seekrange", Off: 1, Hi: 30}, rd(40), rd(1), cl},
+		"read-badseek-close":        {rd(1), sk(-1), cl},
+		"read-badseekrange-close":   {rd(1), {Kind: "seekrange", Off: 2, Hi: 1}, cl},
+		"read-badseek-closenw":      {rd(1), sk(-1), {Kind: "closenw"}},
 	}
 	var names []string
 	for k := range hist {
@@ -477,9 +481,14 @@ func main() {
 		for _, n := range []string{"read-close", "read-closenw", "read-seekrange", "seek-seek-read"} {
 			addJob(n, 12, 1, 2, 1, 1, 1)
 		}
-		// chunks larger than the (shrunk, 8-byte) loan buffer: the work-splitting path
+		// chunks larger than the (shrunk, 8-byte) loan buffer: the work-splitting path, and
+		// positions INSIDE a chunk (with one-byte chunks every position is a chunk boundary)
 		addJob("readall", 2, 20, 2, 1, 1, 1)
 		addJob("read-seek-read", 2, 20, 2, 1, 1, 1)
+		for _, n := range []string{"read-seekrange", "seekrange-same-pos-narrow", "seekrange-same-pos-widen", "seek-seek-read", "read-to-eof"} {
+			addJob(n, 2, 20, 2, 1, 1, 1)
+			addJob(n, 2, 20, 3, 0, 1, 1)
+		}
 	} else {
 		for _, conc := range []int{2, 3} {
 			for _, n := range names {
@@ -517,8 +526,9 @@ func main() {
 		t := tasks[ti]
 		scj, _ := json.Marshal(t.j.sc)
 		cmd := exec.Command(bin, "-scenario", string(scj), "-P", fmt.Sprint(t.j.P), "-D", fmt.Sprint(t.j.D),
-			"-shard", fmt.Sprint(t.shard), "-nshard", fmt.Sprint(t.j.shards), "-deadline", fmt.Sprint(perTaskDeadline))
+			"-shard", fmt.Sprint(t.shard), "-nshard", fmt.Sprint(t.j.shards), "-deadline", fmt.Sprint(perTaskDeadline), "-maxstates", "9000000")
 		cmd.Env = append(os.Environ(), "GOMAXPROCS=1")
+		cmd.SysProcAttr = &syscall.SysProcAttr{Pdeathsig: syscall.SIGKILL} // never outlive the check (16 orphans held 64 GB once)
 		var stderr bytes.Buffer
 		cmd.Stderr = &stderr
 		out, err := cmd.Output()
